@@ -12,11 +12,12 @@ open DSymVerif.DS
 theorem loopPairs_add (a b dim : Nat) :
     ∃ l, loopPairs (a + b) dim = loopPairs a dim ++ l := by
   unfold loopPairs
-  rw [List.range_add, List.flatMap_append]
+  have := List.range_add a b
+  rw [this, List.flatMap_append]
   exact ⟨_, rfl⟩
 
 /-- `op_unchecked(i, x)` succeeded on a well-formed table with `i ≤ dim`: x is a chamber -/
-theorem opC_range {ds : DSetData} (hv : ValidPartialSet ds) {i x y : Nat} (hi : i ≤ ds.dim)
+theorem opC_range {ds : DSetData} (hv : ValidPartialSet ds) {i x y : Nat} (_hi : i ≤ ds.dim)
     (h : opC ds i x = .ok y) : 1 ≤ x ∧ x ≤ ds.size ∧ y = ds.opU i x := by
   obtain ⟨h0, hlt, hy⟩ := opC_ok h
   refine ⟨by omega, ?_, hy.symm⟩
@@ -51,7 +52,6 @@ theorem cmpLoop_mono {ds T : DSetData} (hv : ValidPartialSet ds) (hT : ValidSet 
     simp only [List.cons_append, cmpLoop] at h ⊢
     split at h
     · rename_i od hod
-      rw [hod]
       simp only
       split at h
       · rename_i ei hei
@@ -68,11 +68,9 @@ theorem cmpLoop_mono {ds T : DSetData} (hv : ValidPartialSet ds) (hT : ValidSet 
           rw [if_neg hne]
           split at h
           · rename_i x hx
-            rw [hx]
             simp only at h ⊢
             split at h
             · rename_i r' hr'
-              rw [hr']
               simp only
               split at h
               · rename_i di hdi
@@ -89,7 +87,6 @@ theorem cmpLoop_mono {ds T : DSetData} (hv : ValidPartialSet ds) (hT : ValidSet 
                   rw [if_neg hne2]
                   split at h
                   · rename_i y hy
-                    rw [hy]
                     simp only
                     split at h
                     · rename_i hyne
